@@ -1,6 +1,6 @@
 (* C03 — contracting any process tensor reproduces the exact joint evolution. *)
 From Coq Require Import Arith ZArith List Bool Permutation.
-From OQ Require Import Lib.RingSum Lib.Tensor Model.Dyn Model.PT Proofs.DynSpec Proofs.PTSpec.
+From OQ Require Import Lib.RingSum Lib.Tensor Model.Dyn Model.PT Model.Shapes Proofs.DynSpec Proofs.PTSpec Proofs.ShapesSpec.
 Import ListNotations.
 
 (* (1) For every ring, dimension, number of steps, list of process tensors, controls and
@@ -80,3 +80,13 @@ Proof.
   vm_compute. discriminate.
 Qed.
 Print Assumptions order_dependent_refuted.
+
+(* (4) two baths with the same coupling operator: the exponent of every influence coefficient is
+   additive in the bath's 2D integral, so (exp of a sum being the product of exps) the influence
+   functional of the summed spectral density is the product of the two influence functionals *)
+Theorem sum_of_baths_exponent :
+  forall (K : Ring) (iu er1 ei1 er2 ei2 : K) (m p : nat -> K) i j,
+    exponent iu (radd er1 er2) (radd ei1 ei2) m p i j =
+    radd (exponent iu er1 ei1 m p i j) (exponent iu er2 ei2 m p i j).
+Proof. intros. apply exponent_additive. Qed.
+Print Assumptions sum_of_baths_exponent.
